@@ -307,6 +307,10 @@ impl Placed {
         &self.buf[self.start..self.start + self.len]
     }
 
+    pub fn bytes_mut(&mut self) -> &mut [u8] {
+        &mut self.buf[self.start..self.start + self.len]
+    }
+
     /// A deterministic misalignment for a byte string: a function of its contents, so that
     /// the same case is always placed the same way.
     pub fn misalign_of(bytes: &[u8]) -> usize {
